@@ -60,7 +60,7 @@ func MatchMain(eng *Engine) (bind inputrc.Bind, command func(), prefix bool) {
 	}
 
 	// Find the target action, macro or command.
-	bind, prefix, read, _ := eng.dispatchKeys(binds)
+	bind, prefix, read, matched := eng.dispatchKeys(binds)
 
 	if !bind.Macro {
 		command = eng.commands[bind.Action]
@@ -69,9 +69,15 @@ func MatchMain(eng *Engine) (bind inputrc.Bind, command func(), prefix bool) {
 	// In the main menu, all keys that have been tested against
 	// the binds will be dropped after command execution (whether
 	// or not there's actually a command to execute).
-	if prefix {
+	// Exception: when a shorter sequence was bound and the last key only
+	// ruled out the longer ones, that key has not been used by the command
+	// we return, and must still be dispatched on its own.
+	switch {
+	case prefix:
 		core.MatchedPrefix(eng.keys, read...)
-	} else {
+	case bind.Action != "" && len(matched) < len(read):
+		core.MatchedKeys(eng.keys, matched, read[len(matched):]...)
+	default:
 		core.MatchedKeys(eng.keys, read)
 	}
 
